@@ -97,6 +97,12 @@ CLAIMED = {
         text="(a) the NANO_CC shim switches nanoc's C compiler to clang -fsanitize=address,undefined for both src/runtime/*.c and the generated translation unit; progen programs with string building in loops, arrays of strings through calls, structs/unions/tuples holding heap values, early exits from nested scopes and recursion must run sanitizer-clean. (b) histories of new/push/pop/get/set/remove_at/clear/reserve/clone on dyn_array are compared with a std::vector after every command (length, capacity >= length, element type, all elements, clone independence); gc_alloc/gc_alloc_opaque/retain/release/collect histories are compared with a reference-count model (ref_count, live-object statistics, finalizer calls, contents).",
         note="Leaks are outside the statement. HashMap/List<T> ownership paths and gc_struct are not generated; dyn_array_insert_* are declared but undefined in the runtime.",
         design="3/C20"),
+    "C14": dict(
+        category="exploration",
+        technique="invariant over the run: guarded live-object registry + heap audit at every instruction boundary (hook H2) on Hypothesis-generated aliasing-heavy programs, plus a churn family with a growth bound; plain and ASan builds of the VM",
+        text="The audit walks the operand stack (locals) and globals and every container reachable from them, counts references per object and reports a reference to a non-live object or ref_count < references found; frees of unregistered objects are reported at once. Programs come from progen with aliasing on (values bound to several names, stored in arrays/structs/tuples/unions, passed through and returned from calls, overwritten while aliased, early exits from loops); every fourth program also runs under ASan. Twelve loop bodies that allocate per iteration are run with k = 10, 100, 1000 and the live-object count must not grow by more than 8.",
+        note="References held only in C locals of the interpreter between two instructions are invisible to the audit (they can only make ref_count larger than the audited in-degree). The registry is process-global and only active with NANOLANG_VERIF_AUDIT set.",
+        design="3/C14"),
 }
 
 NOT_YET = {
